@@ -27,7 +27,7 @@ Import ListNotations.
 (* every spelling of every statement of the grammar parses to that statement *)
 Theorem C10_roundtrip : forall o s toks,
   wf_stmt o s = true -> renders o s toks -> parse toks = POk s.
-Proof. intros o s toks W R. rewrite R. exact (roundtrip o s W). Qed.
+Proof. exact roundtrip_renders. Qed.
 Print Assumptions C10_roundtrip.
 
 (* the same from the numbered tokens of the Go TokenList *)
@@ -62,7 +62,7 @@ Print Assumptions C10_keyword_case.
 
 Corollary C10_keyword_case_parse : forall raws raws',
   Forall2 kwcase_variant raws raws' -> parse_pipeline raws = parse_pipeline raws'.
-Proof. intros raws raws' F. unfold parse_pipeline, parse_tokens. rewrite (keyword_case raws raws' F). reflexivity. Qed.
+Proof. exact keyword_case_parse. Qed.
 Print Assumptions C10_keyword_case_parse.
 
 (* a word in any letter case of a keyword string of the generated table becomes that keyword *)
